@@ -1,4 +1,5 @@
 import Driver.Seq
+import Driver.Grp
 /-
   gfdriver: reads protocol lines (one case per line) from the file given as first argument (or stdin),
   writes one verdict line per case: `<case-id> <engine> key=value …`.
@@ -11,6 +12,7 @@ def checkLine (line : String) : String :=
     let eng ← next
     let res ← match eng with
       | "SEQ" => checkSeq
+      | "GRP" => checkGrp
       | e => throw s!"unknown engine {e}"
     pure s!"{id} {eng} {res}"
   match runP p line with
